@@ -1888,6 +1888,11 @@ impl ProtocolState {
             let packet_id = pubrec.packet_id;
             let operation_id_option = self.pending_publish_operations.get(&packet_id);
             if let Some(operation_id) = operation_id_option {
+                if self.current_operation == Some(*operation_id) {
+                    error!("[{} ms] handle_pubrec - PUBREC with packet id {} received while operation {} is still being written", self.elapsed_time_ms, packet_id, operation_id);
+                    return Err(GneissError::new_protocol_error("pubrec received for an operation that is still being written"));
+                }
+
                 let operation_option = self.operations.get_mut(operation_id);
                 if let Some(operation) = operation_option {
                     if let MqttPacket::Publish(publish) = &*operation.packet {
@@ -1966,6 +1971,11 @@ impl ProtocolState {
             let packet_id = pubcomp.packet_id;
             let operation_id_option = self.pending_publish_operations.get(&packet_id);
             if let Some(operation_id) = operation_id_option {
+                if self.current_operation == Some(*operation_id) {
+                    error!("[{} ms] handle_pubcomp - PUBCOMP with packet id {} received while the PUBREL of operation {} is still being written", self.elapsed_time_ms, packet_id, operation_id);
+                    return Err(GneissError::new_protocol_error("pubcomp received before the pubrel was fully written"));
+                }
+
                 let operation = self.operations.get_mut(operation_id).unwrap();
                 if let MqttPacket::Publish(publish) = &*operation.packet {
                     if publish.qos == QualityOfService::ExactlyOnce {
